@@ -449,7 +449,11 @@ def minimise_naming(spec: dict[str, Any], naming: dict[str, Any], coarse: str
 def check_case(case: dict[str, Any], col: common.Collector) -> None:
     spec = case.get("spec")
     if spec is None:
-        spec = proggen.generate(case["seed"], case["profile"], opts=OPTS)
+        # (every fourth "mixed" program: several hand-written loopy calls -- code generation
+        # merges the callee into the kernel, a different path through the name generators)
+        opts = dict(OPTS, loopy_boost=6.0) if case["profile"] == "mixed" \
+            and case["seed"] % 4 == 0 else OPTS
+        spec = proggen.generate(case["seed"], case["profile"], opts=opts)
     rng = common.rng_for(spec["vseed"], "c15", case.get("scenario"))
     if case.get("spec") is None and case.get("scenario") == "outkeys" and rng.random() < 0.5:
         # one array returned under two (or three) keys: every key must be a kernel output
